@@ -257,7 +257,8 @@ def check_anam(ctx, py, im, mo, site):
     dzmax = float(unq(dzmax))
     azv = [undy(az[0]), undy(az[1])]; ayv = [undy(ay[0]), undy(ay[1])]; pzv = [undy(pz[0]), undy(pz[1])]
     yq = py['yq']; zq = py['zq']; data = py['data']; sel = py['sel']; n = len(data)
-    zspan = float(abs(undy(t2r_i[8]) - undy(t2r_i[6]))) if t2r_i[8] != [] and t2r_i[6] != [] else 1.0
+    actv = [float(x) for k, x in enumerate(data) if x is not None and (not sel or sel[k])]
+    zspan = (max(actv) - min(actv)) if actv else 1.0
     # --- forward values
     t2r_i = vd(t2r_i)
     for k, y in enumerate(yq):
@@ -521,9 +522,10 @@ def run(ctx):
     rng = ctx.rng
     gens = [(gen_pca, 120 if quick else 1500), (gen_hermite, 120 if quick else 1500), (gen_anam, 40 if quick else 400),
             (gen_ns, 80 if quick else 1000), (gen_emp, 50 if quick else 600), (gen_rot, 60 if quick else 600)]
-    pys = []
+    pys = []; pys_asan = []
     for line in load_corpus(ctx):
-        pys.append({'kind': line[0], 'case': line, 'corpus': True})
+        py = py_from_case(line); py['corpus'] = True
+        (pys_asan if py['kind'] == 6 else pys).append(py); ctx.dist('corpus')
     for g, cnt in gens:
         for _ in range(cnt):
             py, case = g(ctx, rng, quick); py['kind'] = case[0]; py['case'] = case; pys.append(py)
@@ -533,7 +535,6 @@ def run(ctx):
     exe_asan = build_harness(ctx, 'C18', flavor='asan')
     if exe_asan is None:
         print('ERROR: ASan harness does not build'); sys.exit(3)
-    pys_asan = []
     for _ in range(24 if quick else 200):
         py, case = gen_condexp(ctx, rng, quick); py['kind'] = case[0]; py['case'] = case; py['asan'] = True; pys_asan.append(py)
     impl_a, logs_a = run_resilient(ctx, exe_asan, 'asan', [p['case'] for p in pys_asan], env={'ASAN_OPTIONS': 'detect_leaks=0:abort_on_error=0'})
@@ -615,6 +616,19 @@ def run_resilient(ctx, exe, name, cases, env=None):
         start += len(out) + 1
     return res, logs
 
+def ud(x): return undy(x)
+def py_from_case(c):
+    """rebuild the generator-side description of a stored impl case (corpus / replay)"""
+    k = c[0]; py = {'kind': k, 'case': c}
+    if k == 0: py.update({'mode': c[1], 'nvar': c[2], 'n': len(c[3][0]), 'cols': [[ud(x) for x in col] for col in c[4]], 'sel': c[5], 'dist': 'corpus', 'extra': c[8]})
+    elif k == 1: py.update({'y': ud(c[1]), 'r': ud(c[2]), 'n': c[3]})
+    elif k == 2: py.update({'mode': c[1], 'nb': c[2], 'flagBound': c[3], 'data': [ud(x) for x in c[4]], 'sel': c[5], 'yq': [ud(x) for x in c[6]], 'zq': [ud(x) for x in c[7]]})
+    elif k == 3: py.update({'data': [ud(x) for x in c[1]], 'wt': [ud(x) for x in c[2]], 'sel': c[3] if len(c) > 3 else []})
+    elif k == 4: py.update({'data': [ud(x) for x in c[1]], 'yq': [ud(x) for x in c[2]], 'zq': [ud(x) for x in c[3]]})
+    elif k == 5: py.update({'ndim': c[1], 'mode': c[2], 'vecs': [[ud(x) for x in v] for v in c[4]]})
+    elif k == 6: py.update({'nb': len(c[3]), 'y': ud(c[1]), 'psi': [ud(x) for x in c[3]], 'asan': True})
+    return py
+
 def load_corpus(ctx):
     p = os.path.join(VERIF, 'corpus', ctx.pid + '.sx')
     if not os.path.exists(p): return []
@@ -626,8 +640,6 @@ MODEL_CASE = {0: lambda py, im: pca_model_case_any(py, im), 1: hermite_model_cas
 CHECK = {0: check_pca, 1: check_hermite, 2: check_anam, 3: check_ns, 4: check_emp, 5: check_rot, 6: check_condexp}
 
 def pca_model_case_any(py, im):
-    if 'mode' not in py:    # corpus line
-        c = py['case']; py.update({'mode': c[1], 'nvar': c[2], 'n': len(c[3][0]), 'cols': [[undy(x) for x in col] for col in c[4]], 'sel': c[5], 'extra': c[8]})
     if im[0] != 0:
         z = [[0, 0]] * py['nvar']; zm = [z] * py['nvar']
         c = py['case']
